@@ -631,9 +631,9 @@ def plan_c09(wd, rng, T, mat, lite=False):
     inproc, binary, sweeps = [], [], []
     sparse = [g for g in mat.items if 3 <= len(g["legal"]) <= 26]
     # (lite, for C16: more positions, fewer abort points each - what matters there is an iteration in which the best root move changes)
-    for g in rng.sample(sparse, min(len(sparse), (24 if T else 2) if not lite else (30 if T else 9))):
+    for g in rng.sample(sparse, min(len(sparse), (24 if T else 2) if not lite else (40 if T else 16))):
         sweeps.append({"id": len(sweeps) + 1, "family": "engine", "kind": "sweep", "fen": g["fen"], "moves": [],
-                       "steps": [{"t": "abort_sweep", "depth": 3, "max": (6000 if T else 500) if not lite else (1500 if T else 200), "seed": rng.randrange(1 << 30)}]})
+                       "steps": [{"t": "abort_sweep", "depth": 3, "max": (6000 if T else 500) if not lite else (1000 if T else 120), "seed": rng.randrange(1 << 30)}]})
     if T:
         for g in rng.sample(sparse, min(len(sparse), 3)):
             sm = rng.sample(g["legal"], min(2, len(g["legal"])))
